@@ -475,6 +475,16 @@ func (c *cmp) structure(sd *thrift.StructDescriptor, s *Struct, feat, where stri
 			c.bad(sf, "field-extra", "%s: field %d:%s is exposed but not declared", where, fd.ID(), fd.Name())
 		}
 	}
+	// the requires bitmap marks exposed fields only (a bit without a field makes every CheckRequires of the struct fail)
+	{
+		bm := sd.Requires()
+		for id := 0; id < len(bm)*64 && id < 65536; id++ {
+			if bm.IsSet(thrift.FieldID(id)) && declared[thrift.FieldID(id)] == nil {
+				c.bad(sf, "requires-bitmap-marks-a-field-the-struct-does-not-expose", "%s: Requires() has the bit of id %d set, no exposed field has that id (exposed: %s)", where, id, fieldList(sd))
+				break
+			}
+		}
+	}
 	// declared keys resolve to their fields (the exhaustive absent-key sweep is in the lookup groups)
 	km, order := keysOf(s, c.o.MapWay, func(f *Field) string { a, _ := c.alias(f, root); return a })
 	for _, key := range order {
